@@ -7,6 +7,8 @@
 (* argument list) and the mixed texts derived from the renderings.         *)
 EXTENDS TagExprV1, TLC, Json
 CONSTANTS MaxGroups, MaxAlts, Names,      \* CNF bound; Names: set of tag names (char sequences)
+          Sorted,                         \* TRUE: the alternatives of a group are in non-decreasing literal order
+                                          \* (groups as multisets; their order is covered by the runs with FALSE)
           Universe,                       \* sequence of tags: truth tables range over all its subsets
           V2Depth, V2Operands, NB,        \* v2 family (as in TagExpr_MC)
           Styles,                         \* rendering styles checked per formula (subset of 1..NStyles)
@@ -16,7 +18,10 @@ SS == SubsetSeq(Universe)
 
 \* ---------------------------------------------------------------- the CNF family
 Lits     == {[neg |-> n, name |-> x] : n \in BOOLEAN, x \in Names}
-Groups   == UNION {[1..k -> Lits] : k \in 1..MaxAlts}
+NameOrder == << <<"a">>, <<"b">>, <<"n","o","r">> >>
+Rank(l)  == 2 * (CHOOSE k \in DOMAIN NameOrder : NameOrder[k] = l.name) + (IF l.neg THEN 1 ELSE 0)
+Groups   == {g \in UNION {[1..k -> Lits] : k \in 1..MaxAlts} :
+                Sorted => \A j \in 1..(Len(g) - 1) : Rank(g[j]) <= Rank(g[j + 1])}
 Rests    == UNION {[1..n -> Groups] : n \in 0..(MaxGroups - 1)}
 
 \* ---------------------------------------------------------------- renderings
@@ -125,6 +130,9 @@ Emit == /\ OnCnf(Hash(f) % EmitMod = 0 =>
 NamesQuick    == {<<"a">>, <<"b">>, <<"n","o","r">>}
 NamesTwo      == {<<"a">>, <<"b">>}
 Univ          == << <<"a">>, <<"b">>, <<"n","o","r">>, <<"x","-","y">>, <<"a"," ","b">> >>
+UnivSmall     == << <<"a">>, <<"b">>, <<"n","o","r">> >>
+OpsPlain      == {<<"a">>, <<"b">>}
+OneStyle      == {4}
 AllStyles     == 1..NStyles
 TwoStyles     == {4, 5}
 OpsV2         == {<<"a">>, <<"b">>, <<"x","-","y">>, <<"a","*">>, <<"a","\\"," ","b">>}
